@@ -51,6 +51,10 @@ type Options struct {
 	Store storage.Store
 	// NoFunding: skip the initial funding of the neutral payer (reopened stores).
 	NoFunding bool
+	// Validators: number of consensus nodes (the first ones of the committee); 0 = one for every third world
+	// (Batch%3 == 1) with several committee members, the whole committee otherwise; -1 = the whole committee.
+	// A committee larger than the validator set is the normal shape of a public network.
+	Validators int
 }
 
 // Deployed describes a deployed contract.
@@ -181,6 +185,9 @@ type World struct {
 	SysFee  int64
 	// KeepHistory makes the world retain TxResults (for samples/replays).
 	KeepHistory bool
+	// after Reelect: the multi-signature accounts of the committee that was voted out
+	FormerAlphabet, FormerMajority neotest.Signer
+	elections                      int
 }
 
 // New creates a chain; no contracts are deployed yet.
@@ -195,12 +202,20 @@ func New(o Options) (*World, error) {
 	for i := range w.Pubs {
 		standby[i] = hex.EncodeToString(w.Pubs[i].Bytes())
 	}
+	nval := o.Validators
+	if nval == 0 && o.N > 1 && o.Batch%3 == 1 {
+		// unless told otherwise every third world with several committee members has one consensus node only
+		nval = 1
+	}
+	if nval <= 0 || nval > o.N {
+		nval = o.N
+	}
 	cfg := config.Blockchain{ProtocolConfiguration: config.ProtocolConfiguration{
 		Magic:                       Magic,
 		MaxTraceableBlocks:          1000000,
 		TimePerBlock:                1000000000,
 		StandbyCommittee:            standby,
-		ValidatorsCount:             uint32(o.N),
+		ValidatorsCount:             uint32(nval),
 		VerifyTransactions:          true,
 		P2PSigExtensions:            o.Notary,
 		MaxValidUntilBlockIncrement: 100000,
@@ -216,7 +231,7 @@ func New(o Options) (*World, error) {
 	}
 	go bc.Run()
 	w.Chain = bc
-	w.Validator = Multi(w.Privs, smartcontract.GetDefaultHonestNodeCount(o.N))
+	w.Validator = Multi(w.Privs[:nval], smartcontract.GetDefaultHonestNodeCount(nval))
 	w.Majority = Multi(w.Privs, smartcontract.GetMajorityHonestNodeCount(o.N))
 	w.Alphabet = Multi(w.Privs, o.N*2/3+1)
 	for _, p := range w.Privs {
